@@ -71,13 +71,19 @@ Definition check_opteq_complete := mismatches opteq_complete_ok.
 (* ---- watch data of the real FS ----
    world entry: (path, listing or None, ReadFile answer, ModKey answer, isfile) *)
 Definition wentry := (Z * option (list name) * list Z * list Z * bool)%type.
-Definition mk_world (l : list wentry) : wworld :=
+(* entry kinds of a world: (directory, entry name, kind, is a symlink, EvalSymlinks result or None) *)
+Definition kentry := (Z * name * Z * bool * option Z)%type.
+Definition mk_world_k (l : list wentry) (ks : list kentry) : wworld :=
   let find p := List.find (fun e : wentry => let '(q, _, _, _, _) := e in q =? p) l in
+  let findk d n := List.find (fun e : kentry => let '(q, m, _, _, _) := e in (q =? d) && name_eqb m n) ks in
   mkWw (fun p => match find p with Some (_, d, _, _, _) => d | None => None end)
        (fun p => match find p with Some (_, _, r, _, _) => dec_rd r | None => RdErr 2 end)
        (fun p => match find p with Some (_, _, _, m, _) => dec_mk m | None => MKErr 2 end)
        (fun p => match find p with Some (_, _, _, _, b) => b | None => false end)
-       (fun _ _ => (0, None)).   (* entry kinds play no part in what is recorded *)
+       (fun d n => match findk d n with Some (_, _, k, _, _) => k | None => 0 end)
+       (fun d n => match findk d n with Some (_, _, _, b, _) => b | None => false end)
+       (fun d n => match findk d n with Some (_, _, _, _, e) => e | None => None end).
+Definition mk_world (l : list wentry) : wworld := mk_world_k l [].
 
 (* op: (kind, path, name) kind 0 ReadDirectory 1 Get 2 SortedKeys 3 ReadFile 4 ModKey 5 Entry.Kind *)
 Definition dec_obs (o : Z * Z * name) : obs :=
@@ -86,7 +92,7 @@ Definition dec_obs (o : Z * Z * name) : obs :=
   else if k =? 3 then OReadFile p else if k =? 4 then OModKey p else OKind p n.
 
 (* observed record: (path, state code, key, contents, wasPresent sorted by key, allEntries or None) *)
-Definition wobs := (Z * Z * list Z * Z * list (name * bool) * option (list name))%type.
+Definition wobs := (Z * Z * list Z * Z * list (name * bool) * option (list name) * list (name * option Z))%type.
 
 Fixpoint insert_pb (x : name * bool) (l : list (name * bool)) : list (name * bool) :=
   match l with
@@ -97,15 +103,25 @@ Definition sort_pb (l : list (name * bool)) := fold_right insert_pb [] l.
 Definition pb_eqb (a b : list (name * bool)) : bool :=
   list_eqb (fun x y => name_eqb (fst x) (fst y) && Bool.eqb (snd x) (snd y)) a b.
 
+Fixpoint insert_nl (x : name * option Z) (l : list (name * option Z)) : list (name * option Z) :=
+  match l with
+  | [] => [x]
+  | y :: r => if name_ltb (fst y) (fst x) then y :: insert_nl x r else x :: l
+  end.
+Definition sort_nl (l : list (name * option Z)) := fold_right insert_nl [] l.
+Definition nl_eqb (a b : list (name * option Z)) : bool :=
+  list_eqb (fun x y => name_eqb (fst x) (fst y) && option_eqb Z.eqb (snd x) (snd y)) a b.
+
 Definition wobs_ok (f : wfs) (o : wobs) : bool :=
-  let '(p, st, key, c, pres, all) := o in
+  let '(p, st, key, c, pres, all, links) := o in
   match lookup p (wf_data f) with
   | None => false
   | Some r =>
       (wstate_code (wd_state r) =? st) && zlist_eqb (wd_key r) key && (wd_contents r =? c) &&
       match wd_acc r with
       | Some a => pb_eqb (sort_pb (present_map (ac_present a) [])) pres && option_eqb names_eqb (ac_all a) all
-      | None => match pres, all with [], None => true | _, _ => false end
+                  && nl_eqb (sort_nl (link_map (ac_links a) [])) links
+      | None => match pres, all, links with [], None, [] => true | _, _, _ => false end
       end
   end.
 
@@ -113,14 +129,15 @@ Fixpoint insert_z (x : Z) (l : list Z) : list Z :=
   match l with [] => [x] | y :: r => if y <? x then y :: insert_z x r else x :: l end.
 Definition sort_z (l : list Z) := fold_right insert_z [] l.
 
-(* (world at build time, log, observed records, world after the edit, observed dirty paths (sorted)) *)
-Definition watch_case := (list wentry * list (Z * Z * name) * list wobs * list wentry * list Z)%type.
+(* (world at build time with its entry kinds, log, observed records, world after the edit with its entry kinds,
+   observed dirty paths (sorted)) *)
+Definition watch_case := (list wentry * list kentry * list (Z * Z * name) * list wobs * list wentry * list kentry * list Z)%type.
 Definition watch_ok (c : watch_case) : bool :=
-  let '(w, log, obsd, w2, dirty) := c in
-  let f := record (mk_world w) (map dec_obs log) in
+  let '(w, ks, log, obsd, w2, ks2, dirty) := c in
+  let f := record (mk_world_k w ks) (map dec_obs log) in
   Nat.eqb (List.length (newest (wf_data f) [])) (List.length obsd) &&
   forallb (wobs_ok f) obsd &&
-  zlist_eqb (sort_z (dirty_paths (mk_world w2) (finalize (mk_world w) f))) dirty.
+  zlist_eqb (sort_z (dirty_paths (mk_world_k w2 ks2) (finalize (mk_world_k w ks) f))) dirty.
 Definition check_watch := mismatches watch_ok.
 
 (* ---- the resolver's cached JSON read: FSCache.ReadFile then JSONCache.Parse ----
